@@ -360,19 +360,38 @@ def process_state(ctx):
         ctx.finding(rule, 'qvm/instrs.py:def_instr:callers',
                     'def_instr is called from a function body, not only at '
                     'import time', 'qvm/instrs.py', inner_calls[0].lineno)
-    # per-compilation counters live on instances
+    # per-compilation counters live on instances: whatever get_label draws
+    # its fresh numbers from is bound on self in __init__
     cg = repo.cls('qbee.qvm_codegen', 'QvmCodeGen')
     init = cg.methods.get('__init__')
-    ok = init is not None and any(
-        isinstance(s, ast.Assign) and
-        dotted(s.targets[0]) == 'self.label_counter'
-        for s in walk_shallow(init.node)) and \
-        'label_counter' not in cg.class_attrs
-    ctx.instance(rule, f'{cg.file}:QvmCodeGen.label_counter')
-    if not ok:
+    gl = cg.methods.get('get_label')
+    if gl is None:
+        raise AnalysisError('anchor vanished: QvmCodeGen.get_label')
+    sources = set()
+    for x in ast.walk(gl.node):
+        if isinstance(x, ast.AugAssign) and dotted(x.target) and \
+                dotted(x.target).startswith('self.'):
+            sources.add(dotted(x.target))
+        if isinstance(x, ast.Call) and dotted(x.func) == 'next' and x.args \
+                and (dotted(x.args[0]) or '').startswith('self.'):
+            sources.add(dotted(x.args[0]))
+    ctx.instance(rule, f'{cg.file}:QvmCodeGen.label_counter',
+                 sample={'sources': sorted(sources)})
+    if not sources:
         ctx.finding(rule, f'{cg.file}:QvmCodeGen.label_counter',
-                    'label_counter is not a per-instance attribute '
-                    'initialised in __init__', cg.file, cg.line)
+                    'get_label no longer draws its numbers from a counter '
+                    'held by the code generator instance', cg.file, gl.line)
+    for src in sorted(sources):
+        ok = init is not None and any(
+            isinstance(s_, ast.Assign) and dotted(s_.targets[0]) == src
+            for s_ in walk_shallow(init.node))
+        if not ok:
+            ctx.finding(rule, f'{cg.file}:QvmCodeGen.label_counter',
+                        f'{src}, from which get_label numbers the generated '
+                        f'labels and hidden variables, is not initialised '
+                        f'per instance in __init__: numbering continues '
+                        f'from earlier compilations in the process',
+                        cg.file, gl.line)
     comp = repo.func('qbee.compiler', 'Compiler.__init__')
     ok = 'CompilationUnit()' in unparse(comp.node)
     ctx.instance(rule, f'{comp.file}:Compiler.__init__')
